@@ -68,6 +68,13 @@ LibResult run_lib(const std::vector<uint8_t>& in, const Drain& d, size_t limit) 
 				if (got < k) break;
 			}
 		}
+		// after the end of the stream both interfaces keep saying so and deliver nothing more
+		for (int rep = 0; rep < 3; ++rep) {
+			size_t n = 7; const char* p = dec.GetInternalBuffer(&n); (void)p;
+			V_CHECK(n == 0, "GetInternalBuffer reported " << n << " more bytes after the stream had ended");
+			char tail[5]; size_t g = dec.GetData(tail, sizeof tail);
+			V_CHECK(g == 0, "GetData delivered " << g << " more bytes after the stream had ended");
+		}
 	} catch (const Violation&) { throw; }
 	catch (const std::exception& e) { r.threw = true; r.what = e.what(); }
 	return r;
@@ -93,6 +100,7 @@ void compare(const std::vector<uint8_t>& in, const reflzh::DecodeResult& ref, co
 
 void vol_path(const std::vector<uint8_t>& in, const reflzh::DecodeResult& ref) {
 	refvol::Member m; m.name = "packed.bin"; m.payload = in; m.comp = refvol::CompLZH; m.sizeField = uint32_t(ref.out.size());
+	{ uint64_t hh = fnv1a(in.data(), in.size()); if (hh % 3 == 1) m.sizeField = uint32_t(ref.out.size() / 2); else if (hh % 3 == 2) m.sizeField = uint32_t(ref.out.size() + 1 + hh % 5000); }   // the index size is only a label: extraction writes what the stream decodes to
 	std::vector<uint8_t> vol = refvol::encode({m});
 	std::string vp = scratch_path("c04.vol"), op = scratch_path("c04_out.bin");
 	write_file(vp, vol);
@@ -202,9 +210,10 @@ void run_case(Tape& t, Stats& st) {
 		unsigned n = 2 + unsigned(t.below(5));
 		for (unsigned i = 0; i < n; ++i) {
 			d3.which.push_back(uint8_t(t.below(3) != 0));
-			d3.ks.push_back(t.below(4) == 0 ? 1 + t.below(9000) : t.pick<size_t>({1, 2, 3, 61, 62, 63, 96, 1000, 3000, 4033, 4034, 4035, 4095, 4096, 4097, 8192}));
+			d3.ks.push_back(t.below(4) == 0 ? 1 + t.below(9000) : t.pick<size_t>({1, 2, 3, 61, 62, 63, 96, 1000, 3000, 4033, 4034, 4035, 4095, 4096, 4097, 8192, 0, 0}));   // 0: a copy of nothing still fills the window
 		}
 		d3.which[t.below(n)] = 0; d3.which[t.below(n)] = 1;   // at least one of each whenever possible
+		{ bool productive = false; for (unsigned i = 0; i < n; ++i) if (!d3.which[i] || d3.ks[i] > 0) productive = true; if (!productive) d3.ks[0] = 1; }   // a schedule of empty copies alone never drains anything
 		compare(in, ref, d3, fname);
 		st.cls("mixed_interface_session");
 	}
